@@ -483,6 +483,10 @@ def window_size(rep, idx):
         rep.unk("C03.2", site, "window size", "cannot find the size passed to _compute_addr_range")
         return
     size, step = calls[0][2][1], calls[0][2][2]
+    # the rounding of the placement helper (max(size, 1) aligned up) applied before the call instead of inside it
+    if size[0] == 'call' and size[1] == c.parse("self._align_up") and len(size[2]) == 2 and size[2][0][0] == 'call' and \
+            size[2][0][1] == ('name', 'max') and ('const', 1) in size[2][0][2] and len(size[2][0][2]) == 2:
+        size = next(a for a in size[2][0][2] if a != ('const', 1))
     ratio = ('phi', c.parse("not sparse"), c.parse("self.data_width // window.data_width"), ('const', 1))
     alt = ('phi', c.parse("sparse"), ('const', 1), c.parse("self.data_width // window.data_width"))
     rep.check(step in (c.norm(ratio), c.norm(alt)), "C03.2", site, "ratio = data_width // window.data_width for dense windows, 1 for sparse ones",
